@@ -82,9 +82,10 @@ def run(tier, seed):
     else:
         step = 5
         cases += exh[rng.randint(0, step - 1)::step]
-    for fam, n in ((g.one_null, 120), (g.two_nulls, 60), (g.single, 80), (g.oddities, 30), (g.balanced, 30), (g.cancelling, 120), (g.lots, 200)):
+    for fam, n in ((g.one_null, 120), (g.two_nulls, 60), (g.single, 80), (g.oddities, 30), (g.balanced, 30), (g.cancelling, 120), (g.lots, 200), (g.bucket_decls, 120)):
         cases += [fam() for _ in range(n * k)]
     fc.run_cases(ctx, cases, fc.oracle_c02)
+    fc.run_bucket_journals(ctx, [fc.gen_bucket_journal(rng, rng.randint(2, 8)) for _ in range(40 * k)])
     fc.report_failures(ctx, fc.oracle_c02)
     ctx.extra_cov["oracle_failures"] = len(ctx.failing)
     if ctx.mism:
@@ -95,6 +96,12 @@ def run(tier, seed):
 def replay(obj):
     r = obj.get("replay", {})
     vflib.ensure_ledger()
+    if r.get("items"):
+        print(r["journal"])
+        fails, ties = fc.replay_journal(r["items"])
+        for fp, what in fails:
+            print("FAILS", fp, what)
+        return 1 if fails else 0
     if "case" in r:
         case = r["case"]
         led = fc.run_ledger(case)
